@@ -6,6 +6,7 @@ CONSTANTS
   CtxTerm = FALSE
   DupTerm = FALSE
   ParentKill = FALSE
+  ClearFirst = FALSE
 INVARIANT TypeOK
 INVARIANT Inv_Reaped
 INVARIANT Inv_ParentsKnow
